@@ -347,6 +347,35 @@ def check_C11(ctx, w):
     count_events(ctx, w, "damage", inner=lambda e: bool(e.get("rm") or e.get("add") or e.get("unindex") or e.get("rmschema")))
 
 
+def check_C10(ctx, w):
+    ctx.rule = ("every interleaving of foreground calls, clock ticks and flusher polls of the bounded async model (thresholds 1..2, timeouts 1..2 poll periods) replayed deterministically with the "
+                "virtual clock (the rewritten time.Sleep of the flusher blocks until the driver advances time); random async histories with thresholds 1..4, timeouts 1..5, deletes of pending "
+                "objects, FlushAll / FlushAllAndCommit / Commit, Close + reopen; after every tick the directory is walked independently")
+    tests = []
+    for thr, tmo in ([(1, 2), (2, 1)] if ctx.quick else [(1, 1), (1, 2), (2, 1), (2, 2)]):
+        tests += mc_tests(ctx, w, "mc%d%d_" % (thr, tmo), slots=2, kvals=2, avals=1, maxbatch=1, maxops=ctx.q(4, 5), bfilter="NoBatch", get=False, flusher=True, thr=thr, tmo=tmo,
+                          cfgs="AsyncCfgs", limit=ctx.q(1500, 15000), convert_kw=dict(thr=thr, tmo_ms=tmo * 100, vclock=True))
+    tests += gen_tests(ctx, ctx.q(200, 3000), gen.async_test, "as", nops=ctx.q(14, 24))
+    seq_pipeline(ctx, w, tests, ["Conf_C10"])
+
+
+def check_C17(ctx, w):
+    ctx.rule = ("settings part: every interleaving of writes, deletes, reads, Create with other cache / async settings (all 12 ordered pairs), clock ticks and flusher polls of the bounded model, "
+                "replayed with the virtual clock, then close + reopen; shape part: every ordered pair of 9 struct shapes / constraint sets / extensions re-opened on a populated directory, every "
+                "operation refused with the documented error and the directory byte-identical")
+    tests = mc_tests(ctx, w, "sw", slots=2, kvals=2, avals=1, maxbatch=1, maxops=ctx.q(4, 5), bfilter="NoBatch", get=True, flusher=True, switch=True, thr=2, tmo=2,
+                     cfgs="AllCfgs", limit=ctx.q(2500, 30000), convert_kw=dict(thr=2, tmo_ms=200, vclock=True))
+    # deviation-guided generation: the intended design merges states that a faulty implementation
+    # keeps apart (a cache that survives being switched off, pending writes that survive leaving async
+    # mode); exploring the model WITH those deviations yields the histories that tell them apart
+    tests += mc_tests(ctx, w, "swd", slots=2, kvals=2, avals=1, maxbatch=1, maxops=ctx.q(4, 5), bfilter="NoBatch", get=True, flusher=True, switch=True, thr=2, tmo=2,
+                      cfgs="AllCfgs", limit=ctx.q(2500, 30000), convert_kw=dict(thr=2, tmo_ms=200, vclock=True), dev=("SwitchKeepsCache", "SwitchStrandsPending"), check=False)
+    tests = [t for t in tests if any(o["op"] == "switch" for o in t["ops"])]
+    for t in tests:
+        t["ops"] += [{"op": "obs"}, {"op": "reopen", "close": True, "create": False}, {"op": "obs"}]
+    seq_pipeline(ctx, w, tests, ["Conf_C17"])
+
+
 def check_C14(ctx, w):
     ctx.level = "exploration"
     ctx.rule = ("each of the 12 payload shapes (nil / empty / non-empty slices and maps, pointer chains, slices of pointers inside maps, interfaces holding maps, slices, pointers; "
@@ -388,7 +417,7 @@ def check_C19(ctx, w):
         ctx.exhaustive = True
 
 
-CHECKS = {"C05": check_C05, "C11": check_C11, "C14": check_C14, "C18": check_C18, "C19": check_C19, "C12": check_C12, "C01": check_C01, "C02": check_C02, "C03": check_C03, "C04": check_C04, "C06": check_C06, "C07": check_C07,
+CHECKS = {"C17": check_C17, "C10": check_C10, "C05": check_C05, "C11": check_C11, "C14": check_C14, "C18": check_C18, "C19": check_C19, "C12": check_C12, "C01": check_C01, "C02": check_C02, "C03": check_C03, "C04": check_C04, "C06": check_C06, "C07": check_C07,
           "C13": check_C13, "C15": check_C15, "C16": check_C16, "C20": check_C20}
 
 TECH = "TLA+ design model (SodImpl) explored exhaustively by TLC, one generated test per model transition replayed on the real code, every recorded trace validated by TLC against the trace specification (SodTrace) with the property's invariant"
